@@ -55,11 +55,14 @@ def model_case(base, rnd, n_ops):
     model = {}
     names = ['a/b', 'a/c', 'a/bb/c', 'd', 'e/f g', 'h/ü']
     for step in range(n_ops):
-        op = rnd.choice(['upload', 'upload_stream', 'delete', 'exists', 'download', 'download_stream', 'list'])
+        op = rnd.choice(['upload', 'upload_stream', 'delete', 'exists', 'download', 'download_stream', 'list', 'clean'])
         n = rnd.choice(names)
         data = rnd.randbytes(rnd.choice([0, 1, 7, 300]))
         import io
-        if op == 'upload':
+        if op == 'clean':
+            if root.exists():           # house-keeping of the adapter (a no-op of the map); replicat runs it on initialised repositories only
+                b.clean()
+        elif op == 'upload':
             b.upload(n, data); model[n] = data
         elif op == 'upload_stream':
             b.upload_stream(n, io.BytesIO(data), len(data), rnd.choice([1, 64, 128_000])); model[n] = data
@@ -91,9 +94,13 @@ def main():
     with lib.scratch('vf_c13_') as base:
         for name, make in spellings(base).items():
             cases += 1
-            probs = list_case(base, name, make)
+            try:
+                probs = list_case(base, name, make)
+            except Exception as e:
+                # an operation a plain map always performs raised in the adapter
+                probs = [{'prefix': None, 'missing': [], 'unexpected': [], 'duplicates': False, 'raised': f'{type(e).__name__}: {e}'[:200]}]
             # names ending in '.tmp' are hidden by design of the adapter: known finding D10
-            tmp_only = [p for p in probs if set(p['missing']) <= {'x/y.tmp'} and not p['unexpected'] and not p['duplicates']]
+            tmp_only = [p for p in probs if set(p['missing']) <= {'x/y.tmp'} and not p['unexpected'] and not p['duplicates'] and not p.get('raised')]
             other = [p for p in probs if p not in tmp_only]
             if tmp_only:
                 failures.append({'id': f'list_{name}_tmp', 'class': 'D10', 'case': {'spelling': name}, 'detail': tmp_only[:2]})
@@ -102,7 +109,10 @@ def main():
             samples.append({'spelling': name, 'names': len(NAMES)})
         for i in range(200 if tier == 'thorough' else 10):
             cases += 1
-            f = model_case(base, rnd, 25)
+            try:
+                f = model_case(base, rnd, 25)
+            except Exception as e:
+                f = {'problem': 'an operation of the history raised', 'error': f'{type(e).__name__}: {e}'[:200]}
             if f:
                 failures.append({'id': f'model{i}', 'class': None, 'case': {'seed': seed, 'run': i}, 'detail': f})
     lib.emit({'status': 'ok', 'cases': cases, 'distinct': cases, 'failures': failures[:12], 'samples': samples[:3],
